@@ -201,6 +201,34 @@ theorem T_C12_backport_single_move (m0 : Mesh) (r loc : Nat) (ha : Aligned m0) (
   have : ¬ v = i := fun e => hni (e ▸ hvm)
   simp [this]
 
+/-- `a.move_to(b.position)` copies the coordinates: afterwards `a` is where `b` is, and moving `a` on does not move `b`
+    (two vertices at one place remain two vertices). -/
+theorem T_C12_move_onto (m : Mesh) (r1 r2 loc : Nat) (hv : m.lists.verts ≠ [])
+    (hne : r1 % m.lists.verts.length ≠ r2 % m.lists.verts.length) :
+    locOf (moveOnto m r1 r2).lists.verts (r1 % m.lists.verts.length) = locOf m.lists.verts (r2 % m.lists.verts.length) ∧
+    locOf (moveVertex (moveOnto m r1 r2) r1 loc).lists.verts (r1 % m.lists.verts.length) = loc ∧
+    locOf (moveVertex (moveOnto m r1 r2) r1 loc).lists.verts (r2 % m.lists.verts.length)
+      = locOf m.lists.verts (r2 % m.lists.verts.length) := by
+  have hl1 : r1 % m.lists.verts.length < m.lists.verts.length := Nat.mod_lt _ (List.length_pos_iff.mpr hv)
+  have he : m.lists.verts.isEmpty = false := by
+    cases hvv : m.lists.verts with
+    | nil => exact absurd hvv hv
+    | cons _ _ => rfl
+  have h1 : (moveOnto m r1 r2).lists.verts = m.lists.verts.modify (r1 % m.lists.verts.length)
+      (fun v => { v with loc := locOf m.lists.verts (r2 % m.lists.verts.length) }) := by
+    simp [moveOnto, moveVertex, he]
+  have hlen : (moveOnto m r1 r2).lists.verts.length = m.lists.verts.length := by rw [h1]; simp
+  have he2 : (moveOnto m r1 r2).lists.verts.isEmpty = false := by
+    rw [List.isEmpty_eq_false_iff, ← List.length_pos_iff, hlen]; exact List.length_pos_iff.mpr hv
+  have h2 : (moveVertex (moveOnto m r1 r2) r1 loc).lists.verts = (moveOnto m r1 r2).lists.verts.modify
+      (r1 % m.lists.verts.length) (fun v => { v with loc := loc }) := by
+    simp [moveVertex, he2, hlen]
+  refine ⟨?_, ?_, ?_⟩
+  · rw [h1, locOf_modify _ _ _ _ hl1]; simp
+  · rw [h2, locOf_modify _ _ _ _ (by rw [hlen]; exact hl1)]; simp
+  · rw [h2, locOf_modify _ _ _ _ (by rw [hlen]; exact hl1), h1, locOf_modify _ _ _ _ hl1]
+    simp [Ne.symm hne]
+
 /-- `backport()` keeps the depot well formed (same identity ⇒ same object, 8 points), so `T_C12_aligned` applies
     to its result: the re-assembled blocks sit on the back-ported (moved) locations. -/
 theorem T_C12_backport_aligned (m m' : Mesh) (hb : backport m = some m') (h : DepotWF m.depot)
@@ -300,5 +328,9 @@ example :
     m.geometry = [("terrain", ["type triSurfaceMesh", "file t.stl"])] ∧ (RT m).geometry = m.geometry ∧
     ((backport m).map (·.geometry)) = some m.geometry ∧
     (written (RT (RT m))).toOption = (written (RT m)).toOption := by decide +kernel
+
+/-- hypotheses of `T_C12_move_onto`: the example mesh has vertices and vertices 5 and 2 are different ones -/
+example : (RT (run {} exHistory)).lists.verts ≠ [] ∧
+    5 % (RT (run {} exHistory)).lists.verts.length ≠ 2 % (RT (run {} exHistory)).lists.verts.length := by decide +kernel
 
 end CBV.C12
